@@ -1,6 +1,6 @@
 // c04 harness: real preempt / reclaim actions and real ssn.Preemptable / ssn.Reclaimable votes
-// (priority, gang, conformance, proportion in generated tier layouts) against the C04 model;
-// law selectors 101-104.
+// (priority, gang, conformance, proportion / capacity in generated tier layouts; preempt, reclaim and
+// topology-aware preempt; scripted handler faults and evict refusals) against the C04 model; law selectors 101-108.
 package main
 
 import "verif/harness/internal/evict"
